@@ -754,6 +754,7 @@ class Run:
                         self.failure = 'deadlock'
                     self.main_ev.set()
         ths = [threading.Thread(target=body, args=(t,), daemon=True) for t in range(self.n)]
+        _HOOK['run'] = self
         for t in ths:
             t.start()
         first = self.decide(None, self.enabled())
@@ -765,6 +766,7 @@ class Run:
             for t in ths:
                 t.join(5)
         self.over = True
+        _HOOK['run'] = None
         return self.res
 
 
@@ -809,6 +811,15 @@ class Seq:
 # ====================================================================================== fixtures (real code)
 
 _SVC = {}
+_HOOK = {'run': None}       # the scheduled run in progress (the fixtures report context-cell accesses to it)
+
+
+def note(op, *data):
+    """called by the fixture's user code / start_response in the request thread: a write or read-back of a cell
+    of the request's own context (cell 0 = ctx.transport.resp_headers)"""
+    run = _HOOK['run']
+    if run is not None and not run.over and run.cur is not None:
+        run.log(run.cur, 'r', op, 0, *data)
 
 
 def services():
@@ -860,6 +871,22 @@ def services():
         def crash(ctx, s):
             raise KeyError(s)
 
+        @rpc(Unicode, _returns=Unicode)
+        def login(ctx, user):
+            note('setCtx')
+            ctx.transport.resp_headers['Set-Cookie'] = 'session=secret-of-%s' % user
+            return u'welcome ' + user
+
+        @rpc(Unicode, _returns=Unicode)
+        def whoami(ctx, user):
+            return u'you are %s, headers so far: %s' % (user, sorted(ctx.transport.resp_headers))
+
+        @rpc(Unicode, _returns=Unicode)
+        def teapot(ctx, s):
+            ctx.transport.resp_code = '418 I am a teapot'
+            ctx.transport.resp_headers['X-Tea'] = s
+            return s
+
     class HSvc(ServiceBase):
         @rpc(Unicode, Integer, _returns=Tagged)
         def make(ctx, label, count):
@@ -876,6 +903,22 @@ def services():
         @rpc(Unicode, Integer, _returns=Ordered)
         def ordered(ctx, a, b):
             return Ordered(first=a, second=b)
+
+        @rpc(Unicode, _returns=Unicode)
+        def login(ctx, user):
+            note('setCtx')
+            ctx.transport.resp_headers['Set-Cookie'] = 'session=secret-of-%s' % user
+            return u'welcome ' + user
+
+        @rpc(Unicode, _returns=Unicode)
+        def whoami(ctx, user):
+            return u'you are %s, headers so far: %s' % (user, sorted(ctx.transport.resp_headers))
+
+        @rpc(Unicode, _returns=Unicode)
+        def teapot(ctx, s):
+            ctx.transport.resp_code = '418 I am a teapot'
+            ctx.transport.resp_headers['X-Tea'] = s
+            return s
 
     _SVC.update(Ordered=Ordered, Item=Item, Tagged=Tagged, Svc=Svc, HSvc=HSvc)
     return _SVC
@@ -935,6 +978,10 @@ def request_universe():
               R('boom(qq)', fx, body=soap_body('boom', '<t:s>qq</t:s>')),
               R('items(3)', fx, body=soap_body('items', '<t:n>3</t:n>')),
               R('crash(k)', fx, body=soap_body('crash', '<t:s>k</t:s>')),
+              R('login(bob)', fx, body=soap_body('login', '<t:user>bob</t:user>')),
+              R('login(eve)', fx, body=soap_body('login', '<t:user>eve</t:user>')),
+              R('whoami(al)', fx, body=soap_body('whoami', '<t:user>al</t:user>')),
+              R('teapot(x)', fx, body=soap_body('teapot', '<t:s>x</t:s>')),
               R('nomethod', fx, body=soap_body('nosuch', '')),
               R('garbage', fx, body=b'<not-soap')]
     u += [R('make(a,3)', 'http', method='GET', path='/make', qs='label=a&count=3'),
@@ -945,6 +992,10 @@ def request_universe():
           R('hadd(x,2)', 'http', method='GET', path='/add', qs='a=x&b=2'),
           R('ordered(p,1)', 'http', method='GET', path='/ordered', qs='a=p&b=1'),
           R('ordered(q,2)', 'http', method='GET', path='/ordered', qs='a=q&b=2'),
+          R('hlogin(bob)', 'http', method='GET', path='/login', qs='user=bob'),
+          R('hlogin(eve)', 'http', method='GET', path='/login', qs='user=eve'),
+          R('hwhoami(al)', 'http', method='GET', path='/whoami', qs='user=al'),
+          R('hteapot(y)', 'http', method='GET', path='/teapot', qs='s=y'),
           R('hnone', 'http', method='GET', path='/nosuch', qs='')]
     return u
 
@@ -960,7 +1011,10 @@ def call(w, req):
     st = []
 
     def start_response(status, headers, exc_info=None):
-        st.append((status, sorted((str(k), str(v)) for k, v in headers)))
+        hs = sorted((str(k), str(v)) for k, v in headers)
+        if req['kind'] != 'wsdl':
+            note('getCtx', dict(hs).get('Set-Cookie'))       # the transport has just read ctx.transport.resp_headers
+        st.append((status, hs))
     out = w(env, start_response)
     try:
         body = b''.join(out)
@@ -1027,22 +1081,24 @@ class Env:
         self.w_build_pc = tuple(b) if all(x is not None for x in b) else None
         self.begin_pcs = [pc for pc, i in enumerate(wsdl['instrs']) if i == 'buildBegin']
         self.keys = {}
-        self.twin_attr = {}
         self.labels = {}
 
-    def new_run(self, w, twin):
-        """instance-specific tables: which container is which; the sequential value of every attr entry"""
+    def new_run(self, w):
+        """instance-specific tables"""
         self.keys = {}
         self.labels = {}
-        self.twin_attr = {}
-        app = w.app
-        for role_name, p, tp in (('in', app.in_protocol, twin.app.in_protocol if twin else None),
-                                 ('out', app.out_protocol, twin.app.out_protocol if twin else None)):
-            self.labels[id(p._attrcache)] = role_name
-            self.labels[id(p._sortcache)] = role_name
-            if tp is not None:
-                for cls, v in list(tp._attrcache.items()):
-                    self.twin_attr[(role_name, cls)] = dict(v.items())
+
+    def resolve(self, e):
+        """an attrcache hit saw a half-initialised entry iff what it saw differs from the entry's final content"""
+        if e[1] == 'r' and len(e) == 8 and isinstance(e[7], list):
+            _, container, key, snap = e[7]
+            try:
+                final = container.get(key)
+                val = 'full' if final is not None and dict(final.items()) == snap else 'half'
+            except Exception:       # noqa
+                val = 'full'
+            return e[:7] + (val,)
+        return e
 
     def observe_cache(self, role, op, frame):
         try:
@@ -1062,12 +1118,63 @@ class Env:
                 pas = key.Attributes.prot_attrs
                 pa = bool(pas and (pas.get(prot.__class__) or pas.get(prot)))
                 if hit and op == 'probe':
-                    full = self.twin_attr.get((self.labels.get(id(container)), key))
-                    if full is not None and dict(container.get(key).items()) != full:
-                        val = 'half'
+                    val = ['pending', container, key, dict(container.get(key).items())]
             except Exception:       # noqa
                 pass
         return ('r', op, role.kind, kid, pa, hit, val)
+
+
+# ====================================================================================== pristine child processes
+
+class ChildDied(Exception):
+    """the forked interpreter was killed (segfault, abort) before it could answer; args[0] = wait status"""
+
+
+def in_child(fn, *args):
+    """run fn(*args) in a forked child and return its (picklable) result.  Whatever serves requests runs in a
+    child, so that state a request leaves behind in the *process* (a class attribute, a module global) cannot
+    reach the next measurement — and shows up as a difference between a pristine and a used process."""
+    import pickle
+    rfd, wfd = os.pipe()
+    pid = os.fork()
+    if pid == 0:
+        code = 0
+        try:
+            os.close(rfd)
+            try:
+                data = pickle.dumps(('ok', fn(*args)))
+            except BaseException:      # noqa
+                import traceback
+                data = pickle.dumps(('error', traceback.format_exc()))
+                code = 1
+            with os.fdopen(wfd, 'wb') as f:
+                f.write(data)
+        finally:
+            os._exit(code)
+    os.close(wfd)
+    with os.fdopen(rfd, 'rb') as f:
+        data = f.read()
+    _, status = os.waitpid(pid, 0)
+    if not data:
+        raise ChildDied(status)
+    kind, val = pickle.loads(data)
+    if kind == 'error':
+        raise core.Infra('child process failed in %s:\n%s' % (getattr(fn, '__name__', fn), val))
+    return val
+
+
+def _oracle_alone(req):
+    w = make_instance(req['fx'])
+    cold = call(w, req)
+    warm = call(w, req)
+    return cold, warm
+
+
+def _oracle_after_others(fx, reqs):
+    w = make_instance(fx)
+    for r in reqs:
+        call(w, r)
+    return [call(w, r) for r in reqs]
 
 
 # ====================================================================================== running cases
@@ -1097,51 +1204,48 @@ class Harness:
         self.env = Env(facts['wsdl'], facts['roles'], facts['val'])
         self.universe = {(r['fx'], r['name']): r for r in request_universe()}
         self._oracle = {}
-        self._twin = {}
         self.runs = 0
         self.report = lambda fid, what, obj: (ctx.hit('t3-fail:' + fid), ctx.finding(fid, what, obj))
 
     # ---- sequential oracle
-    def twin(self, fx):
-        """an instance that has served every request of the universe once, sequentially (warm caches)"""
-        if fx not in self._twin:
-            w = make_instance(fx)
-            for r in self.universe.values():
-                if r['fx'] == fx:
-                    call(w, r)
-            self._twin[fx] = w
-        return self._twin[fx]
+    def build_oracle(self):
+        """the response of every request of the universe when it is processed alone by a fresh instance in a
+        pristine process; must not depend on history (same instance again; instance that served the others)"""
+        by_fx = {}
+        for r in self.universe.values():
+            by_fx.setdefault(r['fx'], []).append(r)
+        for fx, reqs in by_fx.items():
+            others = in_child(_oracle_after_others, fx, reqs)
+            for r, other in zip(reqs, others):
+                cold, warm = in_child(_oracle_alone, r)
+                self._oracle[(r['fx'], r['name'])] = cold
+                if not (cold == warm == other):
+                    # even without threads the response depends on what the instance served before
+                    self.report('history-dependent:' + r['fx'],
+                                'request %s gets a different response from a fresh instance, from the same instance again '
+                                'and from an instance that has served the other requests (sequentially, one thread)' % r['name'],
+                                {'fx': r['fx'], 'reqs': [r['name']], 'mode': 'sequential',
+                                 'detail': {'fresh': show_resp(cold), 'again': show_resp(warm), 'after_others': show_resp(other)}})
 
     def oracle(self, req):
         k = (req['fx'], req['name'])
         if k not in self._oracle:
-            w = make_instance(req['fx'])
-            cold = call(w, req)
-            warm = call(w, req)
-            other = call(self.twin(req['fx']), req)
-            if not (cold == warm == other):
-                # even without threads the response depends on what the instance served before
-                self.report('history-dependent:' + req['fx'],
-                                 'request %s gets a different response from a fresh instance, from the same instance again '
-                                 'and from an instance that has served other requests (sequentially, one thread)' % req['name'],
-                                 {'fx': req['fx'], 'reqs': [req['name']], 'mode': 'sequential',
-                                  'detail': {'fresh': show_resp(cold), 'again': show_resp(warm), 'after_others': show_resp(other)}})
-            self._oracle[k] = cold
+            self._oracle[k] = in_child(_oracle_alone, req)[0]
         return self._oracle[k]
 
     # ---- one scheduled run
     def run_case(self, fx, reqs, policy, mode='all'):
         self.runs += 1
         env = self.env
-        tw = self.twin(fx)          # before make_instance: building the twin resets the global caches too
         w = make_instance(fx)
         run = Run(env, len(reqs), policy, mode)
-        env.new_run(w, tw)
+        env.new_run(w)
         instrument_locks(run, w)
         try:
             res = run.go([(lambda r=r: call(w, r)) for r in reqs])
         finally:
             reset_global_caches()
+        run.trace[:] = [env.resolve(e) for e in run.trace]
         out = {'fx': fx, 'reqs': [r['name'] for r in reqs], 'responses': res, 'trace': run.trace,
                'failure': run.failure, 'errors': [None if e is None else '%s: %s' % (type(e).__name__, e) for e in run.err],
                'npoints': run.npoints, 'w': w, 'decisions': run.decisions, 'switches': run.switches, 'mode': mode}
@@ -1213,6 +1317,12 @@ class Harness:
             elif kind == 'r':
                 op = e[2]
                 mt = tid if reqs[tid]['kind'] != 'wsdl' else n + tid
+                if op in ('setCtx', 'getCtx'):
+                    progs[mt].append([op, e[3]])
+                    sched.append(mt)
+                    if op == 'getCtx' and mt == tid:
+                        obs[tid].append(['scr', e[4]])
+                    continue
                 if op in ('validate', 'readErr'):
                     if op == 'readErr' and not (mt == tid and self.is_invalid(reqs[tid])):
                         continue        # the value read is discarded unless the validation failed
@@ -1243,7 +1353,8 @@ class Harness:
             q['reqs'].append({'kind': 'rpc', 'arg': i, 'invalid': False, 'prog': progs[i]})
         seqdoc = None
         real = {'builds': case['builds'], 'threads': [],
-                'errtext': [fault_text(self.oracle(r)[2]) if self.is_invalid(r) else None for r in reqs]}
+                'errtext': [fault_text(self.oracle(r)[2]) if self.is_invalid(r) else None for r in reqs],
+                'cookie': [dict(self.oracle(r)[1] or []).get('Set-Cookie') for r in reqs]}
         for i, r in enumerate(reqs):
             if r['kind'] == 'wsdl':
                 got = case['responses'][i]
@@ -1280,7 +1391,8 @@ class Harness:
                 mobs = None if mresp is None else mresp.get('body')
                 if mobs is not None:
                     # the model names the payload whose error text is read; the real run shows the text
-                    mobs = [['err', 'None' if o[1] is None else (real['errtext'][o[1]] if o[1] < len(real['errtext']) else '?')] if o[0] == 'err' else o
+                    mobs = [['err', 'None' if o[1] is None else (real['errtext'][o[1]] if o[1] < len(real['errtext']) else '?')] if o[0] == 'err' else
+                            ['scr', None if o[1] is None else (real['cookie'][o[1]] if o[1] < len(real['cookie']) else '?')] if o[0] == 'scr' else o
                             for o in mobs]
                 if mobs != rt['obs']:
                     diffs.append('thread %d observations model=%s real=%s' % (i, mobs, rt['obs']))
@@ -1368,9 +1480,53 @@ def snapshot(w):
     return out
 
 
+def context_classes():
+    """the per-request context classes of the loaded spyne modules (MethodContext, TransportContext and its
+    HTTP/WSGI subclasses, ProtocolContext, EventContext, … and whatever a protocol or transport adds)"""
+    out = {}
+    for mn, m in list(sys.modules.items()):
+        if m is None or not (mn == 'spyne' or mn.startswith('spyne.')) or mn.startswith('spyne.test'):
+            continue
+        for k, v in list(vars(m).items()):
+            if isinstance(v, type) and k.endswith('Context') and (v.__module__ or '').startswith('spyne'):
+                out['%s.%s' % (v.__module__, v.__name__)] = v
+    return out
+
+
+def _content(o, depth=0):
+    """content (not identity) of a mutable object hanging off a class"""
+    if isinstance(o, dict):
+        return ('dict', tuple(sorted((repr(k)[:60], _content(v, depth + 1) if depth < 2 else repr(v)[:60]) for k, v in list(o.items()))))
+    if isinstance(o, (list, set, frozenset)) or type(o).__name__ == 'deque':
+        xs = list(o)
+        return (type(o).__name__, tuple(_content(x, depth + 1) if depth < 2 else repr(x)[:60] for x in xs) if not isinstance(o, (set, frozenset))
+                else tuple(sorted(repr(x)[:60] for x in xs)))
+    if isinstance(o, _PRIM):
+        return repr(o)[:60]
+    if hasattr(o, '__dict__') and not isinstance(o, type) and not callable(o) and depth < 2:
+        return (type(o).__name__, tuple(sorted((k, _content(v, depth + 1)) for k, v in list(vars(o).items()))))
+    return (type(o).__name__,)
+
+
+def context_class_cells():
+    """every mutable object reachable from a context *class*: such a cell is shared by all requests"""
+    out = {}
+    for cn, c in context_classes().items():
+        for k, v in list(vars(c).items()):
+            if k.startswith('__') and k.endswith('__'):
+                continue
+            if isinstance(v, (dict, list, set)) or type(v).__name__ in ('deque', 'defaultdict', 'OrderedDict') or \
+                    (hasattr(v, '__dict__') and not isinstance(v, type) and not callable(v)
+                     and not isinstance(v, (property, staticmethod, classmethod))):
+                out['%s.%s' % (cn, k)] = _content(v)
+    return out
+
+
 def shared_writes():
-    """locations written while serving requests, outside the modelled caches"""
+    """(locations written while serving requests outside the modelled caches,
+        context-class cells mutated by a request)"""
     found = {}
+    ctx_cells = {}
     universe = request_universe()
     for fx in ('soap', 'soft', 'http'):
         w = make_instance(fx)
@@ -1378,8 +1534,13 @@ def shared_writes():
         for rnd in ('cold', 'warm'):
             for r in reqs:
                 before = snapshot(w)
+                cbefore = context_class_cells()
                 call(w, r)
                 after = snapshot(w)
+                cafter = context_class_cells()
+                for p in set(cbefore) | set(cafter):
+                    if cbefore.get(p) != cafter.get(p):
+                        ctx_cells.setdefault(p, '%s request %s:%s' % (rnd, fx, r['name']))
                 for p in set(before) | set(after):
                     if before.get(p) != after.get(p):
                         allowed = any(c in p for c in CACHES)
@@ -1389,7 +1550,7 @@ def shared_writes():
                             loc = '%s:%s' % (fx, _strip_ids(p))
                             found.setdefault(loc, '%s request %s (%s)' % (rnd, r['name'], after.get(p, 'deleted')[0]))
     reset_global_caches()
-    return found
+    return found, ctx_cells
 
 
 def _strip_ids(p):
@@ -1461,8 +1622,8 @@ def measure_facts():
         prev = order.get(r.kind)
         # several functions fill the memo tables: the kind is good only if all of them are
         order[r.kind] = r.order if prev in (None, 'afterInit') else prev
-    parked = shared_writes()
-    return {'wsdl': wsdl, 'roles': roles, 'val': val, 'order': order, 'parked': parked,
+    parked, ctx_cells = in_child(shared_writes)
+    return {'wsdl': wsdl, 'roles': roles, 'val': val, 'order': order, 'parked': parked, 'ctx_cells': ctx_cells,
             'skeleton': wsdl['instrs'], 'builderResets': wsdl['builder_resets'], 'errRead': val['mode']}
 
 
@@ -1486,11 +1647,12 @@ def facts12 : Facts12 where
   cdictPublish := %s
   errRead := %s
   parked := [%s]
+  sharedContextCells := [%s]
 
 end SpyneModel.Generated
 ''' % (',\n    '.join(lean_instr(i) for i in f['skeleton']), 'true' if f['builderResets'] else 'false',
        po('attr'), po('sort'), po('memo'), po('cdict'), '.underLock' if f['errRead'] == 'underLock' else '.racy',
-       ', '.join(json.dumps(p) for p in sorted(f['parked'])))
+       ', '.join(json.dumps(p) for p in sorted(f['parked'])), ', '.join(json.dumps(p) for p in sorted(f['ctx_cells'])))
 
 
 # ====================================================================================== main
@@ -1554,16 +1716,32 @@ class Executor:
         reqs = [U[(fx, n)] for n in names]
         kinds = ['wsdl' if r['kind'] == 'wsdl' else 'schema-invalid' if H.is_invalid(r) else
                  'ok' if H.oracle(r)[0].startswith('200') else 'fault' for r in reqs]
+        try:
+            case = in_child(self._run, fx, names, spec, mode, desc)     # every run in a pristine process
+        except ChildDied as e:
+            st = e.args[0]
+            sig = st & 0x7f
+            case = {'decisions': None, 'switches': 0, 'failure': 'crash', 'npoints': [0] * len(names), 'npub': 0, 'npub_pa': 0,
+                    'findings': [('interpreter-crash', 'the Python process was killed (%s) while %d threads served %s under schedule %s'
+                                  % ('signal %d' % sig if sig else 'status %d' % st, len(names), names, desc), {'spec': spec})],
+                    'q': None, 'real': None}
+        self.n += 1
+        self.sink.emit(t='case', fx=fx, reqs=names, mode=mode, sched=desc, decisions=case['decisions'], spec=spec,
+                       switches=case['switches'], kinds=kinds, findings=case['findings'], q=case['q'], real=case['real'])
+        return case
+
+    def _run(self, fx, names, spec, mode, desc):
+        H = self.H
+        reqs = [H.universe[(fx, n)] for n in names]
         case = H.run_case(fx, reqs, make_policy(spec), mode)
         findings = H.check_property(case, desc)
         q = real = None
         if not case['failure']:
             q, real = H.model_query(case)
-        case.pop('w', None)
-        self.n += 1
-        self.sink.emit(t='case', fx=fx, reqs=names, mode=mode, sched=desc, decisions=case['decisions'],
-                       switches=case['switches'], kinds=kinds, findings=findings, q=q, real=real)
-        return case
+        tr = case['trace']
+        return {'decisions': case['decisions'], 'switches': case['switches'], 'failure': case['failure'],
+                'npoints': case['npoints'], 'npub': sum(1 for e in tr if is_pub(e)), 'npub_pa': sum(1 for e in tr if is_pub_pa(e)),
+                'findings': findings, 'q': q, 'real': real}
 
 
 # ---------------------------------------------------------------------------------------- phases (run in worker processes)
@@ -1607,7 +1785,7 @@ def phase_witness(E, rng, T):
     http_all = [r['name'] for r in U.values() if r['fx'] == 'http']
     for a in http_all:
         seqcase = E.execute('http', [a], ['legs', [[0, None]]], 'all', 'sequential')
-        npub = sum(1 for e in seqcase['trace'] if is_pub_pa(e))
+        npub = seqcase['npub_pa']
         for b in http_all:
             for j in range(1, npub + 1):
                 E.execute('http', [a, b], ['after-publish', j], 'all', 'witness-cache-publish')
@@ -1619,7 +1797,7 @@ def phase_publish_sweep(E, rng, T, fx):
     names_all = [r['name'] for r in U.values() if r['fx'] == fx and r['kind'] != 'wsdl']
     for a in names_all:
         seqcase = E.execute(fx, [a], ['legs', [[0, None]]], 'all', 'sequential')
-        npub = sum(1 for e in seqcase['trace'] if is_pub(e))
+        npub = seqcase['npub']
         partners = [a] + [rng.choice(names_all) for _ in range(T)]
         for b in partners:
             for j in range(1, npub + 1):
@@ -1663,11 +1841,46 @@ def phase_mixed(E, rng, T, fx):
             E.execute(fx, names, ['seq', sched], 'all', 'mixed-random')
 
 
+def _stress_round(H, fx, names):
+    U = H.universe
+    reqs = [U[(fx, n)] for n in names]
+    sys.setswitchinterval(1e-6)
+    w = make_instance(fx)
+    res = [None] * len(reqs)
+    builds = [0]
+    w11 = w.app.interface.docs.wsdl11
+    orig = w11.build_interface_document
+
+    def counted(url, orig=orig):
+        builds[0] += 1
+        return orig(url)
+    w11.build_interface_document = counted
+    bar = threading.Barrier(len(reqs))
+
+    def body(k):
+        bar.wait()
+        try:
+            res[k] = call(w, reqs[k])
+        except BaseException as e:      # noqa
+            res[k] = ('exception', None, ('%s: %s' % (type(e).__name__, e)).encode())
+    ths = [threading.Thread(target=body, args=(k,), daemon=True) for k in range(len(reqs))]
+    [t.start() for t in ths]
+    [t.join(20) for t in ths]
+    findings = []
+    for k, r in enumerate(reqs):
+        if res[k] != H.oracle(r):
+            fid = 'wsdl-differs' if r['kind'] == 'wsdl' else 'response-differs:' + H.classify_diff(r, H.oracle(r), res[k])
+            findings.append((fid, 'free-running thread %d (%s) received a response that differs from the sequential one' % (k, r['name']),
+                             {'thread': k, 'expected': show_resp(H.oracle(r)), 'got': show_resp(res[k])}))
+    if builds[0] > 1:
+        findings.append(('wsdl-built-2-times', 'build_interface_document ran %d times (free-running)' % builds[0], {}))
+    return findings
+
+
 def phase_stress(E, rng, T):
-    """unscheduled real threads, real locks, tiny switch interval"""
+    """unscheduled real threads, real locks, tiny switch interval; every round in a pristine process"""
     H = E.H
     U = H.universe
-    sys.setswitchinterval(1e-6)
     for i in range(40 * T):
         fx = ('soap', 'soft', 'http')[i % 3]
         names_all = [r['name'] for r in U.values() if r['fx'] == fx]
@@ -1675,42 +1888,14 @@ def phase_stress(E, rng, T):
         if fx != 'http':
             names[0] = 'wsdl'
             names[1] = rng.choice(['wsdl2', names[1]])
-        reqs = [U[(fx, n)] for n in names]
-        for r in reqs:
-            H.oracle(r)
         E.sink.emit(t='start', fx=fx, reqs=names, spec=['free-running'], mode='stress', sched='stress')
-        w = make_instance(fx)
-        res = [None] * 4
-        builds = [0]
-        w11 = w.app.interface.docs.wsdl11
-        orig = w11.build_interface_document
-
-        def counted(url, orig=orig):
-            builds[0] += 1
-            return orig(url)
-        w11.build_interface_document = counted
-        bar = threading.Barrier(4)
-
-        def body(k):
-            bar.wait()
-            try:
-                res[k] = call(w, reqs[k])
-            except BaseException as e:      # noqa
-                res[k] = ('exception', None, ('%s: %s' % (type(e).__name__, e)).encode())
-        ths = [threading.Thread(target=body, args=(k,), daemon=True) for k in range(4)]
-        [t.start() for t in ths]
-        [t.join(20) for t in ths]
-        findings = []
-        for k, r in enumerate(reqs):
-            if res[k] != H.oracle(r):
-                fid = 'wsdl-differs' if r['kind'] == 'wsdl' else 'response-differs:' + H.classify_diff(r, H.oracle(r), res[k])
-                findings.append((fid, 'free-running thread %d (%s) received a response that differs from the sequential one' % (k, r['name']),
-                                 {'thread': k, 'expected': show_resp(H.oracle(r)), 'got': show_resp(res[k])}))
-        if builds[0] > 1:
-            findings.append(('wsdl-built-2-times', 'build_interface_document ran %d times (free-running)' % builds[0], {}))
+        try:
+            findings = in_child(_stress_round, H, fx, names)
+        except ChildDied as e:
+            findings = [('interpreter-crash', 'the Python process was killed (status %s) while 4 free-running threads served %s'
+                         % (e.args[0], names), {})]
         E.sink.emit(t='case', fx=fx, reqs=names, mode='stress', sched='stress', decisions=None, switches=0, kinds=[],
                     findings=findings, q=None, real=None, round=i)
-    reset_global_caches()
 
 
 def worker(H, path, fn, seed, args):
@@ -1736,7 +1921,8 @@ def run(ctx):
     H = Harness(ctx, f)
     env = H.env
     ctx.cov['facts'] = {'skeleton': f['skeleton'], 'skeleton_notes': f['wsdl']['notes'], 'builderResets': f['builderResets'],
-                        'order': f['order'], 'errRead': f['errRead'], 'parked': f['parked'],
+                        'order': f['order'], 'errRead': f['errRead'], 'parked': f['parked'], 'sharedContextCells': f['ctx_cells'],
+                        'context_classes': sorted(context_classes()),
                         'skeleton_is_expected': f['skeleton'] == EXPECTED}
     ctx.assumptions += [
         'one modelled step = one Python-level load/store of a shared attribute or one call boundary; the GIL makes those atomic',
@@ -1756,12 +1942,15 @@ def run(ctx):
         bad_facts.append('errRead=racy')
     if f['parked']:
         bad_facts.append('parked')
+    if f['ctx_cells']:
+        bad_facts.append('sharedContextCells')
     for b in bad_facts:
         ctx.hit('fact-bad:' + b)
     if env.unmarked:
         ctx.log('T1: shared instructions without a switch point:', env.unmarked)
-    ctx.log('T1: skeleton %s, order %s, errRead %s, parked %d' % (
-        'as expected' if f['skeleton'] == EXPECTED else 'NOT the expected one', f['order'], f['errRead'], len(f['parked'])))
+    ctx.log('T1: skeleton %s, order %s, errRead %s, parked %d, shared context cells %s' % (
+        'as expected' if f['skeleton'] == EXPECTED else 'NOT the expected one', f['order'], f['errRead'], len(f['parked']),
+        sorted(f['ctx_cells']) or 'none'))
 
     # ---------------------------------------------------------------- proof
     ctx.prove()
@@ -1769,6 +1958,8 @@ def run(ctx):
     if drv.get('skeleton') != f['skeleton'] or drv.get('isExpected') != (f['skeleton'] == EXPECTED) or \
             drv.get('good') != (not bad_facts):
         raise core.Infra('the Lean driver and the harness disagree about the regenerated facts: %r vs %r' % (drv, bad_facts))
+
+    H.build_oracle()
 
     # ---------------------------------------------------------------- T2/T3 in worker processes (a crash of the interpreter
     # under some schedule must not take the check down)
@@ -1827,7 +2018,7 @@ def run(ctx):
                 ctx.hit('switches:%s' % (r['switches'] if r['switches'] < 3 else '3+'))
                 for fid, what, detail in r['findings']:
                     ctx.hit('t3-fail:' + fid)
-                    ctx.finding(fid, what, dict(d, sched=r['sched'], detail=detail))
+                    ctx.finding(fid, what, dict(d, sched=r['sched'], spec=r.get('spec'), detail=detail))
                 if r['q'] is not None:
                     queries.append(r['q'])
                     reals.append((r['real'], d))
@@ -1895,6 +2086,8 @@ def replay(ctx, obj):
     U = H.universe
     fx, names = obj['fx'], obj['reqs']
     reqs = [U[(fx, n)] for n in names]
+    for r in reqs:
+        H.oracle(r)         # in a pristine child process, before this process serves anything
     spec = ['decisions', obj['decisions']] if obj.get('decisions') else obj['spec']
     case = H.run_case(fx, reqs, make_policy(spec), obj.get('mode', 'all'))
     print('fixture %s, requests %s, %d scheduler decisions, %d context switches' % (fx, names, len(case['decisions']), case['switches']))
@@ -1902,9 +2095,13 @@ def replay(ctx, obj):
         got, exp = case['responses'][i], H.oracle(r)
         print(' thread %d %-12s status=%s bytes=%s  %s' % (i, r['name'], got and got[0], got and len(got[2]),
                                                           'same as alone' if got == exp else 'DIFFERS from the response it gets alone (%s, %d bytes)' % (exp[0], len(exp[2]))))
-        if got != exp and got is not None and r['kind'] != 'wsdl':
-            print('    got     :', got[2][-300:])
-            print('    expected:', exp[2][-300:])
+        if got != exp and got is not None:
+            if (got[0], got[1]) != (exp[0], exp[1]):
+                print('    got      status/headers:', got[0], got[1])
+                print('    expected status/headers:', exp[0], exp[1])
+            if got[2] != exp[2] and r['kind'] != 'wsdl':
+                print('    got      body:', got[2][-300:])
+                print('    expected body:', exp[2][-300:])
     print(' build_interface_document executions:', case['builds'])
     bad = H.check_property(case, 'replay')
     for fid, what, _ in bad:
